@@ -28,6 +28,8 @@ inductive Ev where
   | srvgot (c : Int) (conn : Nat) (argsOk : Bool) (at_ : Nat)
   | connclosed (conn : Nat) (at_ : Nat)
   | tick (at_ : Nat)
+  | clientclosed (at_ : Nat)              -- `DispatcherClose()` has returned
+  | connect (ep : Nat) (at_ : Nat)        -- a connection attempt (accepted or refused) reaches endpoint `ep`
   deriving Repr
 
 structure CallSt where
@@ -43,6 +45,7 @@ structure St where
   calls : List CallSt := []
   openedAt : Option Nat := none
   closed : List (Nat × Nat) := []          -- (conn, at)
+  clientClosedAt : Option Nat := none
   deriving Repr
 
 def St.upd (s : St) (c : Nat) (f : CallSt → CallSt) : St :=
@@ -84,7 +87,7 @@ def discardsOk (s : St) (idx : Nat) (mux : Bool) : Verdict :=
 
 def evTime : Ev → Nat
   | .issue _ _ t _ => t | .opened t => t | .done _ _ t => t | .wrote _ _ _ _ t => t
-  | .srvgot _ _ _ t => t | .connclosed _ t => t | .tick t => t
+  | .srvgot _ _ _ t => t | .connclosed _ t => t | .tick t => t | .clientclosed t => t | .connect _ t => t
 
 /-- monitor step: new state and verdict for this event.  `which` selects the property. -/
 def monStep (which : Nat) (mux : Bool) (s : St) (idx : Nat) (e : Ev) : St × Verdict :=
@@ -132,6 +135,10 @@ def monStep (which : Nat) (mux : Bool) (s : St) (idx : Nat) (e : Ev) : St × Ver
     (s, if which = 2 && (!argsOk || decide (c < 0)) then .fail "args-mangled" [V.ofNat idx] else .ok)
   | .connclosed conn t => ({ s with closed := s.closed ++ [(conn, t)] }, .ok)
   | .tick t => (s, if which = 1 then overdue s idx t else .ok)
+  | .clientclosed t => ({ s with clientClosedAt := some t }, .ok)
+  | .connect ep _ =>
+    -- C09: "after the client is closed no further reconnection attempts are made"
+    (s, if which = 9 && s.clientClosedAt.isSome then .fail "connect-after-close" [V.ofNat idx, V.ofNat ep] else .ok)
 
 def monGo (which : Nat) (mux : Bool) (s : St) (idx : Nat) : List Ev → Verdict
   | [] => if which = 12 then discardsOk s idx mux else .ok
@@ -157,6 +164,8 @@ def decEv : List V → Option Ev
   | [.a "srvgot", .n c, conn, ok, t] => do pure (.srvgot c (← conn.nat?) (← ok.bool?) (← t.nat?))
   | [.a "connclosed", conn, t] => do pure (.connclosed (← conn.nat?) (← t.nat?))
   | [.a "tick", t] => do pure (.tick (← t.nat?))
+  | [.a "clientclosed", t] => do pure (.clientclosed (← t.nat?))
+  | [.a "connect", ep, t] => do pure (.connect (← ep.nat?) (← t.nat?))
   | _ => none
 
 def decCfg : List V → Option Bool
